@@ -249,4 +249,36 @@ theorem resolve_of_split (t : Tab) (only : Bool) (pkg ctx tgtPkg tgt hm : Path)
     | true => simpa using hkt
     | false => simpa using hkt
 
+theorem scopes_eq_below (pkg scope : Path) : scopes pkg scope = scopesBelowRoot pkg scope ++ [[]] := by
+  unfold scopes scopesBelowRoot
+  simp [List.append_assoc]
+
+/-- A package-qualified name of another package, written without leading dot, is found at the root
+when no scope below the root declares its first component. -/
+theorem resolve_cross (t : Tab) (only : Bool) (ctxPkg ctx tgtPkg tgt : Path) (first : String) (rest : Path)
+    (hwf : SymtabWF t only tgtPkg tgt) (hname : tgtPkg ++ tgt = first :: rest)
+    (hnd : ∀ pre ∈ scopesBelowRoot ctxPkg ctx, declares t pre first = false) :
+    resolve t ctxPkg ctx only (first :: rest) = some (tgtPkg ++ tgt) := by
+  apply resolve_of_split t only ctxPkg ctx tgtPkg tgt [] first rest (scopesBelowRoot ctxPkg ctx) [] hwf
+    (scopes_eq_below ctxPkg ctx)
+  · intro pre hpre
+    have hd := hnd pre hpre
+    unfold declares at hd
+    unfold captures
+    cases hf : t.find (pre ++ [first]) with
+    | none => rfl
+    | some k => simp [hf] at hd
+  · simpa using hname.symm
+
+/-- a fully qualified (leading dot) name of a declared target is read as the target -/
+theorem resolveName_abs (t : Tab) (only : Bool) (pkg ctx tgtPkg tgt : Path)
+    (hwf : SymtabWF t only tgtPkg tgt) :
+    resolveName t pkg ctx only ⟨true, tgtPkg ++ tgt⟩ = some (tgtPkg ++ tgt) := by
+  obtain ⟨kk, hk, hkt⟩ := hwf.2.1
+  unfold resolveName
+  simp only [if_true, hk]
+  cases only with
+  | true => simp only [if_true] at hkt ⊢; simp [hkt]
+  | false => simp only [Bool.false_eq_true, if_false] at hkt ⊢; simp [hkt]
+
 end J5V.Print.RefName
